@@ -110,7 +110,8 @@ IMount(p, b, m) ==
        \E sm1 \in {IF IsMap(m) \/ "S6b" \notin Bugs THEN [smap EXCEPT ![idx] = Canon(m)] ELSE smap} :   \* stored only for Some
           IF p = BadPath
           THEN \* insert_mount_locked: self.root.mount(path)? fails with EINVAL; index and mapping already taken
-               /\ nexts' = a.next /\ smap' = sm1 /\ aok' = AMountFailPre(FALSE, TRUE)
+               /\ nexts' = a.next /\ aok' = AMountFailPre(FALSE, TRUE)
+               /\ smap' = IF "S6b" \in Bugs THEN sm1 ELSE [smap EXCEPT ![idx] = NoMap]     \* (patched: cleared again)
                /\ dirty' = [dirty EXCEPT ![idx] = @ \/ IsMap(m)]
                /\ UNCHANGED <<avars, sb, mnt, cmap, omap, ipn, inext, iinit, inempty, restored>>
                /\ Log([op |-> "mount", path |-> PathStr(p), b |-> b, m |-> MapRec(m), idx |-> -1])
